@@ -338,7 +338,7 @@ impl<CS: BbsCiphersuite> PoKSignature<BBSplus<CS>> {
     where
         CS::Expander: for<'a> ExpandMsg<'a>,
     {
-        let proof = self.to_bbsplus_proof();
+        let proof = self.inner()?;
         let disclosed_messages = disclosed_messages.unwrap_or(&[]);
         let mut disclosed_indexes = disclosed_indexes.unwrap_or(&[]).to_vec();
         disclosed_indexes.sort();
@@ -405,7 +405,7 @@ impl<CS: BbsCiphersuite> PoKSignature<BBSplus<CS>> {
     where
         CS::Expander: for<'a> ExpandMsg<'a>,
     {
-        let proof = self.to_bbsplus_proof();
+        let proof = self.inner()?;
         let L = L.unwrap_or(0);
         let disclosed_messages = disclosed_messages.unwrap_or(&[]);
         let disclosed_committed_messages = disclosed_committed_messages.unwrap_or(&[]);
@@ -464,6 +464,14 @@ impl<CS: BbsCiphersuite> PoKSignature<BBSplus<CS>> {
     /// Creates a `PoKSignature` from a byte slice.
     pub fn from_bytes(bytes: &[u8]) -> Result<Self, Error> {
         Ok(Self::BBSplus(BBSplusPoKSignature::from_bytes(bytes)?))
+    }
+
+    /// Fallible view of the inner `BBSplusPoKSignature` (a value of another variant can be built through serde).
+    fn inner(&self) -> Result<&BBSplusPoKSignature, Error> {
+        match self {
+            Self::BBSplus(inner) => Ok(inner),
+            _ => Err(Error::UnespectedError),
+        }
     }
 
     /// Converts the `PoKSignature` to a `BBSplusPoKSignature`.
